@@ -398,10 +398,14 @@ class RS2D:
     def draw(self, rng):
         rank = rng.randint(1, 4)
         ext = rng.sample([2, 3, 4, 5, 6], rank) + [1] * (4 - rank)      # 1D .. 4D
-        return {"ext": ext, "rc": rng.choice([1, 1, 2])}
+        return {"ext": ext, "rc": rng.choice([1, 1, 2]), "dwell": rng.choice(self.DWELLS)}
+
+    # the dwell time in the spellings an xs:double may take (with / without decimal point, exponent in either case, an integer)
+    DWELLS = ["0.5", "5E-1", "5e-01", "2.5e-1", "25E-2", "2", "2.0", "5E-6", "1e-05", "0.000005"]
 
     def systematic(self, rng):
-        return [{"ext": rng.sample([2, 3, 4, 5, 6], rank) + [1] * (4 - rank), "rc": rc} for rank in (1, 2, 3, 4) for rc in (1, 2)]
+        return [{"ext": rng.sample([2, 3, 4, 5, 6], rank) + [1] * (4 - rank), "rc": rc} for rank in (1, 2, 3, 4) for rc in (1, 2)] + \
+               [{"ext": rng.sample([2, 3, 4, 5, 6], 2) + [1, 1], "rc": 1, "dwell": dw} for dw in self.DWELLS]
 
     def layout(self, c):
         d1, d2, d3, d4 = c["ext"]
@@ -415,7 +419,7 @@ class RS2D:
         def ent(k, v):
             return ("<entry><key>%s</key><value><name>%s</name><value>%s</value></value></entry>" % (k, k, v))
         return "<header><params>" + "".join(ent("ACQUISITION_MATRIX_DIMENSION_%dD" % (k + 1), c["ext"][k]) for k in range(4)) + \
-               ent("RECEIVER_COUNT", c["rc"]) + ent("DWELL_TIME", "0.5") + ent("BASE_FREQ_1", "400000000.0") + "</params></header>"
+               ent("RECEIVER_COUNT", c["rc"]) + ent("DWELL_TIME", c.get("dwell", "0.5")) + ent("BASE_FREQ_1", "400000000.0") + "</params></header>"
 
     def write(self, c, d, body):
         p = os.path.join(d, "rs2d")
@@ -431,7 +435,7 @@ class RS2D:
         v = raw[..., 1].astype(float) + 1j * raw[..., 0].astype(float)
         ext = list(c["ext"]) + [c["rc"]]
         keep = [k for k in range(5) if ext[k] != 1]
-        scale = [0.5, 1.0, 1.0, 1.0, 1.0]
+        scale = [float(c.get("dwell", "0.5")), 1.0, 1.0, 1.0, 1.0]
         return np.squeeze(v), ["t%d" % k for k in keep], [np.arange(ext[k]) * scale[k] for k in keep]
 
     def perturbed(self, c, change):
